@@ -258,6 +258,37 @@ Theorem c04_glue_complete_partial : forall reqf apex cls wide recs z negttl buf 
     end.
 Proof. exact respond_referral_glue_build. Qed.
 
+(* Clause (iv) for direct positive answers, in the same unary form.  For every zone built by adds and every question
+   (QTYPE other than ANY) answered by an RRset at the query name (the lookup reports LFound rs): respond_w decodes, and if the
+   answering logic (set_aa, the answer RRset, additional-section processing) succeeded, the decoded answer section is that
+   RRset, the authority section is empty, and the additional section is records related to an order-preserving
+   sub-selection X of the candidate list [addl_rrs] (for NS/MD/MF/MB/MX/SRV answers in classes IN/CH: the A / AAAA RRsets
+   of the names in the RDATA, in order) followed only by pseudo-records.  Any two successful responses to the same question
+   — UDP or TCP, any limit — therefore differ only in which of those optional candidates are present. *)
+Theorem c04_optional_only_partial : forall reqf apex cls wide recs z negttl buf tcp id rd qname qtype qclass edns limit rs sos,
+  (forall c t a b d, reqf c t a b = true -> reqf c t b d = true -> reqf c t a d = true) ->
+  zone_build reqf (zone_new apex cls wide) recs = Some z ->
+  Forall (fun r => good_rd (r_rdata r) /\ (r_type r < 65536)%N) recs -> good_name apex -> (cls < 65536)%N ->
+  512 <= length buf -> good_name qname -> in_zone apex qname = true ->
+  (id < 65536)%N -> (qtype < 65536)%N -> (qclass < 65536)%N -> (forall s, edns = Some s -> (s < 65536)%N) ->
+  (qtype =? QTYPE_ANY)%N = false ->
+  zone_lookup z qname qtype true false = Ok (LFound rs sos) ->
+  exists w len b m,
+    prepare_w buf tcp id rd qname qtype qclass edns limit = Some w /\
+    respond_w negttl buf tcp id rd qname qtype qclass edns limit z = Some (len, b) /\
+    decode_msg (firstn len b) = Some m /\
+    match set_aa_then w_iface (add_found w_iface z QhQname qname qtype rs) w with
+    | Ok _ =>
+      exists X ds_opt ds_pseudo,
+        Forall2 (rr_rel xparts) (map (mkAR qname Standard qtype (z_class z) (ttl_rfc (fst rs))) (snd rs)) (m_an m) /\
+        m_ns m = [] /\
+        m_ar m = ds_opt ++ ds_pseudo /\
+        Forall2 (rr_rel xparts) X ds_opt /\ Sub X (addl_rrs z qtype (snd rs)) /\
+        forallb is_pseudo ds_pseudo = true
+    | _ => True
+    end.
+Proof. exact respond_found_optional_build. Qed.
+
 (* Non-vacuity: zone a. with the delegation sub.a. NS ns.sub.a. / NS ns.other. and the glue ns.sub.a. A 5.6.7.8:
    the lookup of x.sub.a. is a referral, its glue list is that one A record, and do_referral succeeds in 512 octets. *)
 Definition ex_recs4 : list record :=
@@ -281,6 +312,7 @@ Example c04_glue_example :
 Proof. vm_compute. split; [reflexivity|exact I]. Qed.
 
 Print Assumptions c04_glue_complete_partial.
+Print Assumptions c04_optional_only_partial.
 Print Assumptions c04_tc_on_the_octets.
 Print Assumptions c04_response_within_limit.
 Print Assumptions c04_tc_shape.
